@@ -59,14 +59,19 @@ def main():
                 if rc == 1 and "VIOLATION property=" not in r.stdout:
                     rc = 3  # crashed, not a verdict
                 row[p] = (rc, round(time.time() - t0, 1))
-            results.append((m["id"], "suite-green" if suite else "suite-RED", row))
+            expect_held = m.get("expect") == "held"
+            results.append((m["id"], ("neutral:" if expect_held else "") + ("suite-green" if suite else "suite-RED"), row))
+            word = (lambda rc: "SILENT(ok)" if rc == 0 else "FALSE-ALARM" if rc == 1 else f"rc={rc}") if expect_held else \
+                (lambda rc: "CAUGHT" if rc == 1 else "MISSED" if rc == 0 else f"rc={rc}")
             print(m["id"], "suite-green" if suite else "suite-RED(" + t.stdout.strip().split("\n")[-1][:60] + ")",
-                  {p: ("CAUGHT" if rc == 1 else "MISSED" if rc == 0 else f"rc={rc}") + f" {dt}s" for p, (rc, dt) in row.items()}, flush=True)
+                  {p: word(rc) + f" {dt}s" for p, (rc, dt) in row.items()}, flush=True)
             shutil.rmtree(d)
     finally:
         shutil.rmtree(base, ignore_errors=True)
     missed = [(i, p) for i, s, row in results for p, (rc, _) in row.items() if rc != 1 and s == "suite-green"]
+    false_alarms = [(i, p) for i, s, row in results for p, (rc, _) in row.items() if rc != 0 and s.startswith("neutral:")]
     print("\nmissed:", missed)
+    print("false alarms on behaviour-preserving changes:", false_alarms)
 
 
 if __name__ == "__main__":
